@@ -262,17 +262,36 @@ package cluster
 
 // ---- collection point quota (property C15): refused before anything is created or written ----
 //@ spec sumPC(s []shardInfo, n int) int64 = ite(n <= 0, 0, sumPC(s, n-1) + s[n-1].PointCount)
-// assumed of the shard infos a collection reports: one entry per distinct shard id, sizes and
-// point counts are not negative (and far from the int64 range)
-//@ func (*ClusterNode).GetShardsInfo
+// The shard infos of a collection: one entry per shard id of the collection, in order, each with
+// what that shard's server reported; if any shard cannot be asked the whole listing fails (a
+// partial listing would under-count the collection against its quota). Assumed (listed): the
+// shard ids of a stored collection are pairwise distinct; a server reports sizes and point counts
+// that are not negative (and far from the int64 range).
+//@ func (*ClusterNode).RPCGetShardInfo
 //@   trusted
 //@   pure
+//@   writesarg 2
+//@ func (*ClusterNode).GetShardsInfo
+//@   property C15
+//@   safety -overflow -nil -index
 //@   allocates
-//@   ensures forall(a, 0, len(result0), forall(b, 0, len(result0), a != b ==> result0[a].Id != result0[b].Id))
-//@   ensures forall(a, 0, len(result0), result0[a].PointCount >= 0 && result0[a].PointCount <= 4611686018427387904 && result0[a].Size >= 0 && result0[a].Size <= 4611686018427387904)
+//@   pure
+//@   requires len(c.Servers) >= 1
+//@   requires forall(a, 0, len(col.ShardIds), forall(b, 0, len(col.ShardIds), a != b ==> col.ShardIds[a] != col.ShardIds[b]))
+//@   after RPCGetShardInfo assume getInfoResponse.PointCount >= 0 && getInfoResponse.PointCount <= 4611686018427387904 && getInfoResponse.Size >= 0 && getInfoResponse.Size <= 4611686018427387904
+//@   before RPCGetShardInfo requires arg1.ShardId == shardId && arg1.Collection.Id == col.Id && arg1.Collection.UserId == col.UserId
+//@   ensures result1 == nil ==> len(result0) == len(col.ShardIds) && forall(k, 0, len(result0), result0[k].Id == col.ShardIds[k])
+//@   ensures lastres(RPCGetShardInfo) != nil ==> result1 != nil
+//@   ensures result1 == nil ==> forall(a, 0, len(result0), forall(b, 0, len(result0), a != b ==> result0[a].Id != result0[b].Id))
+//@   ensures result1 == nil ==> forall(a, 0, len(result0), result0[a].PointCount >= 0 && result0[a].PointCount <= 4611686018427387904 && result0[a].Size >= 0 && result0[a].Size <= 4611686018427387904)
+//@   loop 1 invariant rangeindex >= -1 && rangeindex < len(col.ShardIds) && len(shards) == rangeindex + 1 && lastres(RPCGetShardInfo) == nil
+//@   loop 1 invariant fresh(shards)
+//@   loop 1 invariant forall(k, 0, len(shards), shards[k].Id == col.ShardIds[k] && shards[k].PointCount >= 0 && shards[k].PointCount <= 4611686018427387904 && shards[k].Size >= 0 && shards[k].Size <= 4611686018427387904)
 //@ func (*ClusterNode).InsertPoints
 //@   property C15
 //@   safety -overflow -panic -slice -index
+//@   requires len(c.Servers) >= 1
+//@   requires forall(a, 0, len(col.ShardIds), forall(b, 0, len(col.ShardIds), a != b ==> col.ShardIds[a] != col.ShardIds[b]))
 //@   requires c.cfg.MaxShardPointCount >= 1 && c.cfg.MaxShardPointCount <= 4611686018427387904 && c.cfg.MaxShardSize >= 0 && c.cfg.MaxShardSize <= 4611686018427387904
 //@   before SortFunc requires sumPC(shards, len(shards)) + int64(len(points)) <= col.UserPlan.MaxCollectionPointCount
 //@   before distributePoints requires sumPC(shards, len(shards)) + int64(len(points)) <= col.UserPlan.MaxCollectionPointCount
